@@ -402,6 +402,8 @@ class Ctx:
         # an implementation violation with a concrete input outranks breaks without one
         have_input = any(p['kind'] == 'impl-violation' for p in self.problems)
         reported_sites = set()
+        # a failing input on real numerics is a better replay than one found under the toy envelopes
+        self.problems.sort(key=lambda q: 0 if (q.get('tags') or {}).get('mode') == 'real' else 1)
         for p in self.problems:
             kf = None
             for k in known:
